@@ -261,6 +261,14 @@ pub fn judge(c: &Case, o: &Result<Obs, String>) -> Option<(String, String, serde
     // a handle that reported closed: its task can no longer act
     for (sid, stamp, closed) in &o.closed_samples {
       if *sid == id && *closed {
+        // a subscribing task acts through the subscription it produced for as long as that is open
+        if matches!(t.kind, Kind::Subscribing) {
+          let ran = runs.iter().any(|e| e.seq < *stamp);
+          let produced_closed = evs.iter().any(|e| e.seq < *stamp && matches!(e.k, K::Mark("produced_unsub", _)));
+          if ran && !produced_closed {
+            return Some(("closed_while_its_subscription_is_open".into(), kname.into(), show(format!("is_closed()==true at stamp {} although the subscription the task produced had not been unsubscribed", stamp))));
+          }
+        }
         if let Some(r) = runs.iter().find(|e| e.seq > *stamp) {
           return Some(("closed_but_still_acting".into(), kname.into(), show(format!("is_closed()==true at stamp {}, body ran at stamp {}", stamp, r.seq))));
         }
